@@ -7,6 +7,7 @@ from fractions import Fraction
 
 from vf import lpref
 from vf.combi import digits
+from vf.guard import call as gcall, too_many_hangs
 from vf.core import Job, new_result, viol
 
 LEVEL = "exploration"
@@ -129,7 +130,7 @@ def judge(geo, c, ints, minimize, kw):
     A, b = geo.A, geo.b
     st, val, relax = geo.milp(c, list(ints), minimize)
     try:
-        res = solve_milp([float(v) for v in c], [[float(v) for v in r] for r in A], [float(v) for v in b], list(ints), minimize=minimize, **kw)
+        res = gcall(lambda: solve_milp([float(v) for v in c], [[float(v) for v in r] for r in A], [float(v) for v in b], list(ints), minimize=minimize, **kw), 5.0, 50_000_000)
     except Exception as ex:  # noqa: BLE001
         return [("raised", f"{type(ex).__name__}: {ex}")], "raised", False
     errs = []
@@ -246,7 +247,7 @@ def _chunk(params, lo, hi):
             errs, label, nt = judge(geo, c, ints, minimize, kw)
             wit = {"c": c, "A": A, "b": b, "integers": list(ints), "minimize": minimize, "config": kw}
             _rec(r, errs, label, nt, wit, f"solve_milp(c={c}, A={A}, b={b}, integers={list(ints)}, minimize={minimize}, {kw})")
-        if len(r["violations"]) >= 40:
+        if len(r["violations"]) >= 40 or too_many_hangs():
             r["capped"] = True
             break
     return r
@@ -283,7 +284,7 @@ def _binary_chunk(params, lo, hi):
                 errs, label, nt = judge(geo, c, ints, minimize, kw)
                 wit = {"c": c, "A": A, "b": b, "integers": list(ints), "minimize": minimize, "config": kw}
                 _rec(r, errs, label, nt, wit, f"solve_milp(c={c}, A={A}, b={b}, integers={list(ints)}, minimize={minimize}, {kw})")
-        if len(r["violations"]) >= 40:
+        if len(r["violations"]) >= 40 or too_many_hangs():
             r["capped"] = True
             break
     return r
@@ -319,7 +320,7 @@ def _pseudo_chunk(params, lo, hi):
             errs, label, nt = judge(geo, c, (0,), minimize, kw)
             wit = {"c": c, "A": A, "b": b, "integers": [0], "minimize": minimize, "config": kw}
             _rec(r, errs, label, nt, wit, f"solve_milp(c={c}, A={A}, b={b}, integers=[0], minimize={minimize}, {kw})")
-        if len(r["violations"]) >= 40:
+        if len(r["violations"]) >= 40 or too_many_hangs():
             r["capped"] = True
             break
     return r
@@ -354,7 +355,7 @@ def _pseudo3_chunk(params, lo, hi):
             errs, label, nt = judge(geo, c, (0, 1), minimize, kw)
             wit = {"c": c, "A": A, "b": b, "integers": [0, 1], "minimize": minimize, "config": kw}
             _rec(r, errs, label, nt, wit, f"solve_milp(c={c}, A={A}, b={b}, integers=[0, 1], minimize={minimize}, {kw})")
-        if len(r["violations"]) >= 40:
+        if len(r["violations"]) >= 40 or too_many_hangs():
             r["capped"] = True
             break
     return r
